@@ -137,8 +137,11 @@ def parse_config_file(path: str, kwargs: dict):
             kwargs["outfile"] = val
 
         elif key.lower() in ("private", "align", "magnet", "cwd"):
-            if val.lower() in ("true", "false"):
-                kwargs[key.lower()] = val.lower() == "true"
+            # the words configparser itself reads as booleans
+            if val.lower() in ("true", "yes", "on", "1"):
+                kwargs[key.lower()] = True
+            elif val.lower() in ("false", "no", "off", "0"):
+                kwargs[key.lower()] = False
             else:
                 kwargs[key.lower()] = val
 
